@@ -11,9 +11,9 @@ helpers it runs through:
 
 State.  The buffer (`memfs.NewFilespace()`) and the remote (a root memory filespace in every check) ARE
 memfs trees: the functions of `Goat.MemFS` are reused unchanged.  The four Go maps of `cacheHistory`
-are duplicate-free lists of the key strings *exactly as the Go code keys them*: `CleanPath`ed for
-`remove`, `removeAll`, `mkdirAll` and for the `write` entries of `Writer`/`Copy*`, the RAW argument for
-`WriteFile`.  A Go map has no order: the lists keep insertion order only as a canonical representative, and
+are duplicate-free lists of the key strings *exactly as the Go code keys them* (every method cleans its
+path arguments with `varutil.CleanPath` first; `WriteFile`, `Writer`, `Copy*`, `Remove`, `RemoveAll` journal
+their path only when the call succeeded, `MkdirAll` always).  A Go map has no order: the lists keep insertion order only as a canonical representative, and
 `commitWith` takes the four iteration orders as explicit parameters (`commit` = the canonical one);
 `Props/C06.commit_order_irrelevant` shows that nothing observable depends on them.
 
@@ -26,8 +26,7 @@ The directory walk of `fshelper.Copy` runs in goroutines (one producer, one cons
 same callbacks sequentially in walk order.  Without an error the resulting tree is the same up to the
 order of directory entries (the drivers compare listings as sets); a FAILING walk stops the Go loop
 after a scheduling-dependent prefix — the generators keep away from that case (see harness/cmd/cache/gen.go).
-Copying a node onto itself or into an overlapping path does not return in Go (KF-C06-7); the model is a
-total function and answers something: such calls are never compared.
+`Copy` refuses a source and destination that are the same node or contain one another (`overlaps`).
 
 Second half of the file: the *direct application* twin used as executable specification by driver and
 theorems (`Spec`), histories (`HOp`, `runH`), and the decidable defect predicates of the known findings
@@ -192,44 +191,56 @@ def mkdirAll (s : State) (p : Bytes) : State × Result :=
   let (b, r) := Root.mkdirAll s.buffer dest
   ({ s with mkdirAll := jadd s.mkdirAll dest, buffer := b }, r)
 
+/-- the journals are written after the buffer operation, and only when it answered `nil` -/
+def jaddIf (r : Result) (j : List Bytes) (key : Bytes) : List Bytes := if r = .ok then jadd j key else j
+
 def writer (s : State) (p : Bytes) (chunks : List Bytes) : State × Result :=
   let dest := cleanPath p
   let (b, r) := Root.writer s.buffer dest chunks
-  ({ s with write := jadd s.write dest, buffer := b }, r)
+  ({ s with write := jaddIf r s.write dest, buffer := b }, r)
 
-/-- `WriteFile` journals and passes on the argument as it came -/
 def writeFile (s : State) (p data : Bytes) : State × Result :=
-  let (b, r) := Root.writeFile s.buffer p data
-  ({ s with write := jadd s.write p, buffer := b }, r)
+  let dest := cleanPath p
+  let (b, r) := Root.writeFile s.buffer dest data
+  ({ s with write := jaddIf r s.write dest, buffer := b }, r)
 
 def remove (s : State) (p : Bytes) : State × Result :=
   let dest := cleanPath p
   let (b, r) :=
     if isTrue (Root.isExist s.buffer dest) then Root.remove s.buffer dest else (s.buffer, Result.ok)
-  ({ s with remove := jadd s.remove dest, buffer := b }, r)
+  ({ s with remove := jaddIf r s.remove dest, buffer := b }, r)
 
 def removeAll (s : State) (p : Bytes) : State × Result :=
   let dest := cleanPath p
   let (b, r) :=
     if isTrue (Root.isExist s.buffer dest) then Root.removeAll s.buffer dest else (s.buffer, Result.ok)
-  ({ s with removeAll := jadd s.removeAll dest, buffer := b }, r)
+  ({ s with removeAll := jaddIf r s.removeAll dest, buffer := b }, r)
+
+/-- `overlaps(a, b)` of cache.go on two cleaned paths: the same node, or one inside the other (`strings.HasPrefix`
+of the strings extended by `/`); the root, `""` or `"."`, contains every node -/
+def overlaps (a b : Bytes) : Bool :=
+  let a := if a = Path.dotSeg then [] else a
+  let b := if b = Path.dotSeg then [] else b
+  a.isEmpty || b.isEmpty || (b ++ [slash]).isPrefixOf (a ++ [slash]) || (a ++ [slash]).isPrefixOf (b ++ [slash])
 
 def copy (s : State) (src dest : Bytes) : State × Result :=
   let (inB, src) := srcFS s src
   let dest := cleanPath dest
-  copier { s with write := jadd s.write dest } inB src dest
+  if overlaps src dest then (s, .err) else
+  let (s', r) := copier s inB src dest
+  ({ s' with write := jaddIf r s'.write dest }, r)
 
 def copyDirectory (s : State) (src dest : Bytes) : State × Result :=
   let (inB, src) := srcFS s src
   let dest := cleanPath dest
   if !isTrue (Root.isDir (srcTree s inB) src) then (s, .err) else
-  copy { s with write := jadd s.write dest } src dest
+  copy s src dest
 
 def copyFile (s : State) (src dest : Bytes) : State × Result :=
   let (inB, src) := srcFS s src
   let dest := cleanPath dest
   if !isTrue (Root.isFile (srcTree s inB) src) then (s, .err) else
-  copy { s with write := jadd s.write dest } src dest
+  copy s src dest
 
 /-- one call on the cache itself (`Filespace` always succeeds: `fshelper.NewSubFS`) -/
 def stepCache (s : State) : Op → State × Result
@@ -458,9 +469,6 @@ structure Sim where
   direct : Node
   /-- the last Commit reported an error and none has succeeded since -/
   failed : Bool := false
-  /-- `write`-journal keys put there by calls that failed (and not successfully written since): bookkeeping
-  for the attribution of KF-C06-5, not part of the cache -/
-  failedWrites : List Bytes := []
 
 def Sim.new (remote : Node) : Sim := { cache := State.new remote, direct := remote }
 
@@ -474,13 +482,6 @@ def cacheOp : Handle → Op → Option Op
   | .cache, op => some op
   | .sub base, op => subOp base op
 
-/-- the key under which a call on the cache journals a write -/
-def writeKey : Op → Option Bytes
-  | .writeFile p _ => some p
-  | .writer p _ => some (cleanPath p)
-  | .copy _ d | .copyDirectory _ d | .copyFile _ d => some (cleanPath d)
-  | _ => none
-
 /-- one history line on both sides.  A mutating call is applied directly when (and only when) it succeeded
 through the cache ("the same successful operations"). -/
 def Sim.step (m : Sim) : HOp → Sim × Result
@@ -492,16 +493,7 @@ def Sim.step (m : Sim) : HOp → Sim × Result
         | some ref => (MemFS.step ref m.direct op).1
         | none => m.direct
       else m.direct
-    let fw :=
-      match cacheOp h op with
-      | some cop =>
-        match writeKey cop with
-        | some k => if r == .ok then m.failedWrites.filter (· != k)
-                    else if c.write.contains k && !m.cache.write.contains k then m.failedWrites ++ [k]
-                    else m.failedWrites
-        | none => m.failedWrites
-      | none => m.failedWrites
-    ({ m with cache := c, direct := d, failedWrites := fw }, r)
+    ({ m with cache := c, direct := d }, r)
   | .commit fa =>
     let (c, _, ok) := commit fa m.cache
     ({ m with cache := c, failed := !ok }, if ok then .ok else .err)
@@ -516,7 +508,7 @@ Each predicate `D` is an *event*: a condition on one history line and the co-sim
 A history is in the class of a finding when the event occurs at some line (`defectsOf`).  The events are the
 ways a single call can break "cache view = direct tree ∧ replaying the journals onto the remote gives the
 direct tree" starting from a state where it holds; see known_findings.d/C06.json, C07.json for the
-witnesses.  (KF-C06-7, overlapping copy arguments, is a predicate on the arguments alone.) -/
+witnesses. -/
 
 inductive Defect where
   /-- KF-C06-1: `Remove` of a directory that exists on the remote (Commit only removes when `remote.IsFile`) -/
@@ -524,22 +516,12 @@ inductive Defect where
   /-- KF-C06-2: `Remove`/`RemoveAll` of a buffer directory at or above the parent of a journalled write:
   Commit's `MkdirAll(path.Dir(src))` re-creates it -/
   | removeAboveWrite
-  /-- KF-C06-3: `WriteFile` succeeded with a path whose last segment is `""`, `.` or `..`: the journal keeps the
-  raw string and `path.Dir` of it is not the file's parent -/
-  | uncleanWrite
   /-- KF-C06-4: a successful copy of a directory: journalled as one write of the directory path, which Commit skips -/
   | dirCopy
-  /-- KF-C06-5: a failed `WriteFile`/`Writer`/`Copy*` has journalled its destination whose `path.Dir` is not a
-  directory of the direct tree: Commit creates it (or fails on it) -/
-  | failedJournalled
   /-- KF-C06-6: `Remove`/`RemoveAll` of a buffer directory below the root level whose parent is not a directory
   on the remote (or will be wiped there by a journalled recursive remove): the parent was only journalled through
   the removed path -/
   | removeBufferDir
-  /-- KF-C06-7: copy with overlapping arguments (never returns in Go) -/
-  | overlapCopy
-  /-- KF-C06-8: `RemoveAll` of the cache's own root: refused, yet journalled; every later Commit fails -/
-  | rootRemoveAll
   /-- KF-C07-1: `Remove` succeeded through the cache while the path exists on the remote (it stays visible) -/
   | removeRemote
   /-- KF-C07-2: `RemoveAll` succeeded through the cache while the path exists on the remote -/
@@ -560,15 +542,13 @@ inductive Defect where
   | staleCopySource
 deriving Repr, DecidableEq
 
+/-- the identifiers of known_findings.d (KF-C06-3, 5, 7, 8 are repaired: no predicate any more, their witnesses
+are regression cases in corpus/C06) -/
 def Defect.id : Defect → String
   | .removeRemoteDir => "KF-C06-1"
   | .removeAboveWrite => "KF-C06-2"
-  | .uncleanWrite => "KF-C06-3"
   | .dirCopy => "KF-C06-4"
-  | .failedJournalled => "KF-C06-5"
   | .removeBufferDir => "KF-C06-6"
-  | .overlapCopy => "KF-C06-7"
-  | .rootRemoveAll => "KF-C06-8"
   | .removeRemote => "KF-C07-1"
   | .removeAllRemote => "KF-C07-2"
   | .typeConflict => "KF-C07-3"
@@ -624,8 +604,18 @@ def defectsAt (m : Sim) (h : Handle) (op : Op) (r : Result) : List Defect :=
     | none => .err
   let climbs : List Defect :=
     if h == .cache && (opArgs op).any (fun raw => (nf raw).isNone && (nf (cleanPath raw)).isSome)
-        && !(match op with | .writeFile .. => true | .filespace _ => true | _ => false)
+        && !(match op with | .filespace _ => true | _ => false)
     then [.rootedClimb] else []
+  let removal (p : Bytes) : List Defect :=
+    if isTrue (Root.isDir s.buffer p) then
+      (match nf p with
+       | some q =>
+         (if s.write.any (fun w => match nf (pathDir w) with | some d => isPrefixOf q d | none => false)
+          then [.removeAboveWrite] else []) ++
+         (if q.length ≥ 2 && (!isTrue (Root.isDir s.remote (join q.dropLast)) || wiped s q.dropLast)
+          then [.removeBufferDir] else [])
+       | none => [])
+    else []
   match cacheOp h op with
   | none => []
   | some cop =>
@@ -635,82 +625,39 @@ def defectsAt (m : Sim) (h : Handle) (op : Op) (r : Result) : List Defect :=
     let p := cleanPath raw
     if r != .ok then [] else
     (if has s.remote p && direct op == .ok then [.removeRemote] else []) ++
-    (if isTrue (Root.isDir s.remote p) && direct op == .ok then [.removeRemoteDir] else []) ++
-    (if isTrue (Root.isDir s.buffer p) then
-      (match nf p with
-       | some q =>
-         (if s.write.any (fun w => match nf (pathDir w) with | some d => isPrefixOf q d | none => false)
-          then [.removeAboveWrite] else []) ++
-         (if q.length ≥ 2 && (!isTrue (Root.isDir s.remote (join q.dropLast)) || wiped s q.dropLast) then [.removeBufferDir] else [])
-       | none => [])
-     else [])
+    (if isTrue (Root.isDir s.remote p) && direct op == .ok then [.removeRemoteDir] else []) ++ removal p
   | .removeAll raw =>
     let p := cleanPath raw
-    (if (nf p) == some [] then [.rootRemoveAll] else []) ++
-    (if r != .ok then [] else
-    (if has s.remote p then [.removeAllRemote] else []) ++
-    (if isTrue (Root.isDir s.buffer p) then
-      (match nf p with
-       | some q =>
-         (if s.write.any (fun w => match nf (pathDir w) with | some d => isPrefixOf q d | none => false)
-          then [.removeAboveWrite] else []) ++
-         (if q.length ≥ 2 && (!isTrue (Root.isDir s.remote (join q.dropLast)) || wiped s q.dropLast) then [.removeBufferDir] else [])
-       | none => [])
-     else []))
-  | .writeFile raw _ =>
-    if r == .ok then
-      (if direct op != .ok then [.typeConflict] else []) ++
-      (let l := lastSeg raw
-       if l == [] || l == Path.dotSeg || l == Path.dotdotSeg then [.uncleanWrite] else [])
-    else
-      (if isTrue (Root.isDir m.direct (pathDir raw)) then [] else [.failedJournalled])
-  | .writer raw _ =>
-    if r == .ok then (if direct op != .ok then [.typeConflict] else [])
-    else (if isTrue (Root.isDir m.direct (pathDir (cleanPath raw))) then [] else [.failedJournalled])
-  | .mkdirAll _ =>
+    if r != .ok then [] else
+    (if has s.remote p then [.removeAllRemote] else []) ++ removal p
+  | .writeFile _ _ | .writer _ _ | .mkdirAll _ =>
     if r == .ok && direct op != .ok then [.typeConflict] else []
   | .copy a b | .copyDirectory a b | .copyFile a b =>
     let (inB, src) := srcFS s a
     let dest := cleanPath b
-    let overlap : List Defect :=
-      match nf src, nf dest with
-      | some x, some y => if isPrefixOf x y || isPrefixOf y x then [.overlapCopy] else []
-      | _, _ => []
-    -- did the call get as far as journalling its destination?
-    let journalled : Bool :=
-      match cop with
-      | .copyDirectory .. => isTrue (Root.isDir (srcTree s inB) src)
-      | .copyFile .. => isTrue (Root.isFile (srcTree s inB) src)
-      | _ => true
-    overlap ++
-    if r == .ok then
-      let srcIsDir := isTrue (Root.isDir (srcTree s inB) src)
-      (if srcIsDir then [.dirCopy] else []) ++
-      (if srcIsDir && inB && (match nf src with
-          | some q => (below s.remote q).any fun rel => !has s.buffer (join (q ++ rel))
-          | none => false) then [.copyMergedDir] else []) ++
-      (if has m.direct dest then [.copyOntoExisting]
-       else if direct op != .ok then
-         (if !srcIsDir && Root.readFile (srcTree s inB) src != Root.readFile m.direct src
-          then [.staleCopySource] else [.typeConflict])
-       else []) ++
-      (if !srcIsDir && direct op == .ok && Root.readFile (srcTree s inB) src != Root.readFile m.direct src
-       then [.staleCopySource] else [])
-    else
-      (if journalled && !isTrue (Root.isDir m.direct (pathDir dest)) then [.failedJournalled] else [])
+    if r != .ok then [] else
+    let srcIsDir := isTrue (Root.isDir (srcTree s inB) src)
+    (if srcIsDir then [.dirCopy] else []) ++
+    (if srcIsDir && inB && (match nf src with
+        | some q => (below s.remote q).any fun rel => !has s.buffer (join (q ++ rel))
+        | none => false) then [.copyMergedDir] else []) ++
+    (if has m.direct dest then [.copyOntoExisting]
+     else if direct op != .ok then
+       (if !srcIsDir && Root.readFile (srcTree s inB) src != Root.readFile m.direct src
+        then [.staleCopySource] else [.typeConflict])
+     else []) ++
+    (if !srcIsDir && direct op == .ok && Root.readFile (srcTree s inB) src != Root.readFile m.direct src
+     then [.staleCopySource] else [])
   | _ => []
 
 /-- the events of a Commit line: a journalled write whose `path.Dir` is not a directory of the direct tree
-(Commit creates it, or fails on it) — attributed to the spelling (KF-C06-3), to a failed call that
-journalled it (KF-C06-5), or else to a removal above it (KF-C06-2) -/
+(Commit creates it, or fails on it) — the file is still in the buffer (it stands beneath a remote file:
+KF-C07-3 = KF-C06-9), or it was removed together with its parents (KF-C06-2) -/
 def defectsAtCommit (m : Sim) : List Defect :=
   m.cache.write.flatMap fun w =>
     if isTrue (Root.isDir m.direct (pathDir w)) then []
-    else
-      let l := lastSeg w
-      if l == [] || l == Path.dotSeg || l == Path.dotdotSeg then [.uncleanWrite]
-      else if m.failedWrites.contains w then [.failedJournalled]
-      else [.removeAboveWrite]
+    else if isTrue (Root.isFile m.cache.buffer w) then [.typeConflict]
+    else [.removeAboveWrite]
 
 /-- the classes a history falls into: every event at every line -/
 def defectsOf (m : Sim) : List HOp → List Defect
@@ -729,13 +676,9 @@ def Handle.ok : Handle → Bool
   | .sub base => base.getLast? == some slash && (nf base).isSome
 
 /-- the calls of the class of `commit_equiv_partial`: WriteFile / Writer / MkdirAll / CopyFile through an ok handle
-(a CopyFile that succeeds directly has a file source and an absent destination); a `WriteFile` path, as the cache
-receives it, must end in a real name (the negation of KF-C06-3) -/
+(a CopyFile that succeeds directly has a file source and an absent destination) -/
 def writeClass : Handle × Op → Bool
-  | (h, .writeFile raw _) =>
-    h.ok && (match cacheOp h (.writeFile raw []) with
-      | some (.writeFile raw' _) => decide (Path.Plain (lastSeg raw'))
-      | _ => false)
+  | (h, .writeFile _ _) => h.ok
   | (h, .writer _ _) => h.ok
   | (h, .mkdirAll _) => h.ok
   | (h, .copyFile _ _) => h.ok
